@@ -115,6 +115,7 @@ const (
 	UrlRaw     = "url-raw"
 	UrlEnc     = "url-enc"
 	UrlEncFull = "url-encfull"
+	UrlPtr     = "url-ptr" // *string input
 )
 
 // Carry validates v under rule through the given carrier. ok=false when the carrier cannot
@@ -150,13 +151,21 @@ func Carry(carrier string, v reflect.Value, rule string) (out Out, ok bool) {
 		sl := reflect.MakeSlice(reflect.SliceOf(mt), 0, 1)
 		sl = reflect.Append(sl, m)
 		return Call(func() error { return valid.Map(sl.Interface(), valid.RM{"k": rule}) }), true
-	case UrlRaw, UrlEnc, UrlEncFull:
+	case UrlRaw, UrlEnc, UrlEncFull, UrlPtr:
 		if v.Kind() != reflect.String {
 			return Out{}, false
 		}
 		s := v.String()
 		var u string
 		switch carrier {
+		case UrlPtr:
+			u = "http://h.example/p?k=" + url.QueryEscape(s)
+			up := &u
+			if len(s)%2 == 0 {
+				upp := &up
+				_ = upp
+			}
+			return Call(func() error { return valid.Url(up, valid.RM{"k": rule}) }), true
 		case UrlRaw:
 			if !UrlUnreserved(s) {
 				return Out{}, false
